@@ -5,38 +5,67 @@ CFG = {'lean_modules': ['ObiVerif.Props.C02'],
  'thorough_seeds': 8,
  'rule': 'cases = title lines through the real _parse_json_header_ (every string of length <=4 (quick) / <=6 (thorough) over { } " \\ a; every string of '
          'length <=3 / <=4 over the 8-symbol hostile alphabet " \\ { } ; = > @ as a string annotation marshalled by go-json; go-json(random map) ++ hostile '
-         'trailing text; a corpus with the two title lines that kill / fool the unrepaired scanner), every quality byte 0..255 x shifts {33,64}^2 through '
-         'QualitiesString and the FASTQ parser, hostile title lines through both chunk parsers, and full round trips of 1..3 records (ids with " \\ { } > @, '
-         'IUPAC sequences of length 1,59,60,61,120,121 and random, qualities 0..255, annotation maps with hostile / non-ASCII strings and keys, ints to '
-         '+-2^53, floats, bools, map[string]int, map[string]string, []int, optional definition; json / guessed header parser; shifts 33/64 in and out) through '
-         'the real FormatFastaBatch/FormatFastqBatch -> FastaChunkParser/FastqChunkParser -> ParseFastSeqJsonHeader/ParseGuessedFastSeqHeader; '
-         'non-trivial = distinct well-formed case',
- 'technique': 'Lean 4 theorems on a transcription of the scanner, the writers and the two parser state machines (all strings, nestings, lengths, quality '
-              'bytes, shifts) + differential correspondence with the real code (same header bytes / same written text) + record-equality and '
-              'write-read-write oracles on the real code; the JSON library is a parameter whose contract is validated on every generated map',
- 'level_text': 'scan_finds_object: for every token list forming one balanced object with properly escaped string bodies (unbounded nesting, any byte '
-               'inside strings) and every trailing text, the (repaired) brace/quote scanner of _parse_json_header_ — transcribed loop, not an idealisation — '
-               'returns exactly the span of the object; unrepaired_scanner_cuts_object / _loses_object state the repaired defect on the two witness title '
-               'lines. qual_roundtrip / qual_roundtrip_range / qual_shift_mismatch: every quality byte, every shift. fold_unfold: every length. '
-               'title_roundtrip. write_read_fasta, write_read_fastq (offsets 33 and 64), write_read_fasta_many (any non-empty list of records): running the '
-               'transcribed 7-state / 12-state chunk-parser machines and ParseFastSeqJsonHeader on what the transcribed writers print gives the records back '
-               '(qualities clamped at 93); write_read_write_fixed_fasta / _fastq / _fasta_many: writing the re-read records gives the same bytes; '
-               'header_roundtrip, reparse_lossless: re-parsing a formatted header never changes or loses annotations. The composed theorems take the '
-               'contract of go-json on the annotations at hand (JsonLib.OKat: balanced escaped one-line output, Unmarshal(Marshal a) = a) as hypothesis. '
-               'The model is tied to /repo by running the real formatters, chunk parsers and header parsers and the compiled model on the same case lines; '
-               'the scanner model is fed the very bytes the real _parse_json_header_ receives (hook VerifParseJsonHeader).',
- 'level_note': 'Trusted: Lean kernel; the transcription Model/Header.lean (scanner, strings.TrimSpace, FormatFasta folding, _formatFastq, '
-               'QualitiesString, both chunk-parser state machines, ParseFastSeqJsonHeader). goccy/go-json is NOT modelled: its answers on every candidate '
-               'span of a header are passed to the model as a table, and the hypotheses of the composed theorems (its output is one balanced, properly escaped '
-               'object on one line; Unmarshal(Marshal a) = a by value) are validated by the harness on every generated map (oracle + token check), not proved. '
-               'Several FASTQ records in one chunk, the guessed-parser dispatch and the structural layer (splitTitle/unfold/readFastaS, cross-checked against the machines on every case) are tied by the correspondence only. OBI-format headers and the chunk splitting of multi-record files (C01) are outside this property. Values outside the stated universe '
-               '(ints beyond 2^53, NaN/Inf, invalid UTF-8) are not generated.',
- 'trusted_base': LEAN_TB + ['goccy/go-json Marshal/Unmarshal (external library: parameter of the model, contract validated differentially)',
+         'trailing text; a corpus with the two title lines that kill / fool the unrepaired scanner and ~45 JSON texts no writer prints (all escapes, '
+         '\\uXXXX incl. surrogates, number syntax, null, deep nesting, white space, duplicate keys, non-string definition, malformed texts)), every '
+         'quality byte 0..255 x shifts {33,64}^2 through QualitiesString and the FASTQ parser, hostile title lines through both chunk parsers, and full '
+         'round trips of 1..3 records (ids with " \\ { } > @ | # NBSP U+2028 DEL control bytes, 300 bytes long; IUPAC sequences of length '
+         '0 (writer Fatalf),1,2,59,60,61,119,120,121,180,181 and random; qualities 0..255; annotation maps with hostile / multi-byte / control-character '
+         'strings and keys (U+0000, U+0080-U+FFFF boundaries, U+2028/9, astral), ints to +-2^53, floats (+-0, 1e-6/1e21 format thresholds, 2^63, 1e300, '
+         'subnormal, max), bools, map[string]int, map[string]string, []int, nested []interface{} / map[string]interface{} / nil of depth <=3 (quick) / <=5 '
+         '(thorough); definition absent / empty / untrimmed / starting with { / looking like a JSON object / the only annotation; json / guessed header '
+         'parser; shifts 33/64 in and out) through the real FormatFastaBatch/FormatFastqBatch -> FastaChunkParser/FastqChunkParser -> '
+         'ParseFastSeqJsonHeader/ParseGuessedFastSeqHeader; non-trivial = distinct well-formed case',
+ 'technique': 'Lean 4 theorems on a transcription of the scanner, the writers, the two parser state machines and a model of the JSON encoder / decoder '
+              '(all strings, nestings, lengths, quality bytes, shifts) + differential correspondence with the real code: the model prints the JSON header '
+              'itself and decodes it itself (same written bytes, same decoded value by digest) + record-equality, write-read-write and '
+              'encoding/json-cross-check oracles on the real code',
+ 'level_text': 'Model/Json.lean models what go-json prints and reads on the value universe (strings of any bytes with the escapes of appendNormalizedString, '
+               'numbers as decimal literals, bools, null, lists and maps nested without bound, members in go-json\'s encoded-key order). '
+               'json_decode_encode: decodeObj (encodeObj m) = some m for every object whose number literals obey the JSON grammar; json_encode_balanced / '
+               'json_encode_oneLine: the encoder always prints one balanced, properly escaped object on one line, so scan_finds_encoded: the (repaired) '
+               'brace/quote scanner of _parse_json_header_ — transcribed loop — finds every encoded object whatever text follows, with NO hypothesis; '
+               'goJson_contract discharges the contract (JsonLib.OKat) that the generic composed theorems take as hypothesis, giving the UNCONDITIONAL '
+               'header_roundtrip_json, write_read_fasta_json, write_read_fastq_json (offsets 33/64), write_read_fasta_many_json, write_read_fastq_many_json '
+               '(any list of records in one chunk through the 12-state machine: new), write_read_write_fixed_fasta_json / _fastq_json, and '
+               'reparse_lossless_json: for ANY title line the parser accepts (no hypothesis on its bytes: the decoder\'s output is proved well formed), '
+               'formatting what was parsed and parsing again gives the same annotations and definition. guessed_is_json, '
+               'write_read_fasta_guessed_json / write_read_fastq_guessed_json: ParseGuessedFastSeqHeader on what the writers print is the JSON parser. '
+               'Kept: scan_finds_object (any balanced token list), unrepaired_scanner_cuts_object / _loses_object, qual_roundtrip / _range / '
+               'qual_shift_mismatch, fold_unfold, title_roundtrip, and the generic (any JsonLib satisfying the contract) header_roundtrip, reparse_lossless, '
+               'write_read_fasta / _fastq / _fasta_many / _fastq_many, write_read_write_fixed_*. '
+               'Tie: the compiled model computes the header bytes from the annotation spec (compared byte for byte with the real writers\' text) and decodes '
+               'the span the scanner finds with its own decoder (compared by value digest with what the real header parser stored); AnnOK (hypothesis of the '
+               'unconditional theorems) is checked on every case.',
+ 'level_note': 'Trusted: Lean kernel; the transcriptions Model/Header.lean (scanner, strings.TrimSpace, FormatFasta folding, _formatFastq, QualitiesString, '
+               'both chunk-parser state machines, ParseFastSeqJsonHeader, ParseGuessedFastSeqHeader dispatch) and Model/Json.lean. '
+               'Numbers: a number is its decimal literal (value = the rational it denotes; canonical positional string for comparison). The choice f/e of '
+               'go-json AppendFloat64 and the positional layout are modelled; the shortest digits of a float64 (strconv.FormatFloat) are DATA for the model and '
+               'strconv.ParseFloat(shortest digits) = the same float64 is tied by the correspondence only (digest of the re-read value) — not proved. '
+               'The Go dynamic type int vs float64 is not part of a model value (the reader gives float64 to every number; the narrowing loop of '
+               '_parse_json_header_ is overwritten by its own second assignment and changes nothing — a float64 >= 2^63 narrowed to int would change value: '
+               'covered by generated floats 2^63, 1e21, 1e300 through the record-equality oracle). '
+               'Strings: the encoder model is go-json\'s on valid UTF-8; for an invalid byte go-json prints U+FFFD (so a title line holding invalid UTF-8 '
+               'inside a JSON string is accepted, and re-formatting changes that byte: outside the stated universe "arbitrary Unicode", reparse oracle skipped, '
+               'corpus case kept for the correspondence). '
+               'The decoder model is a strict RFC 8259 parser of compact texts; texts it rejects (white space between tokens, surrogate \\u escapes, raw control '
+               'characters, and — by a driver guard — duplicate keys, non-string definition) fall back to go-json\'s answer passed as a table (about 6% of the '
+               'hdr cases, none of the writer-produced headers); go-json accepting exactly RFC 8259 is not claimed. '
+               'The structural layer (splitTitle/unfold/readFastaS/readFastqS, cross-checked against the machines on every one-record case) is still tied by the '
+               'correspondence only (no refinement theorem); OBI-format headers (the other branch of the guessed parser: parameter `obi`, only its behaviour on an '
+               'empty definition is assumed and exercised) and the chunk splitting of multi-record files (C01) are outside this property. intLit (Nat.repr) '
+               'producing a grammatical literal is checked at run time (AnnOK on every case), not proved. Values outside the stated universe (ints beyond 2^53, '
+               'NaN/Inf, invalid UTF-8 in annotation values) are not generated; an empty sequence makes both writers Fatalf (modelled, outside the property).',
+ 'trusted_base': LEAN_TB + ['Go strconv shortest float formatting / ParseFloat (data for the model; round trip tied differentially)',
+                            'goccy/go-json Marshal/Unmarshal: modelled (Model/Json.lean), tie = byte-for-byte header + by-value digest on every generated map; '
+                            'its answers are data only for texts outside the decoder model',
                             'Go strings.TrimSpace / unicode.IsSpace (transcribed from the documentation, exercised by the correspondence)',
-                            'harness canonical by-value dump of annotation maps (FNV-1a digest)'],
- 'modelled': 'pkg/obiformats fastseq_json_header.go (_parse_json_header_ scanner + ParseFastSeqJsonHeader), fastseq_header.go (dispatch), '
-             'fastseq_write_fasta.go (FormatFasta/FormatFastaBatch), fastseq_write_fastq.go (_formatFastq), fastaseq_read.go (FastaChunkParser), '
-             'fastqseq_read.go (FastqChunkParser, _storeSequenceQuality); pkg/obiseq biosequence.go (QualitiesString, Qualities)',
- 'assumptions': ['go-json emits one balanced object whose string bodies have every " and \\ escaped, without raw end of line (checked on every generated map)',
-                 'go-json Unmarshal(Marshal a) = a by value on the stated universe (checked on every generated map)',
-                 'identifiers contain no blank; sequences are non-empty and over the parser alphabet; input and output quality shifts agree for quality round trips']}
+                            'harness canonical by-value dump of annotation maps (FNV-1a digest), recomputed independently by the model driver'],
+ 'modelled': 'pkg/obiformats fastseq_json_header.go (_parse_json_header_ scanner + ParseFastSeqJsonHeader, FormatFastSeqJsonHeader), fastseq_header.go '
+             '(ParseGuessedFastSeqHeader dispatch), fastseq_write_fasta.go (FormatFasta/FormatFastaBatch incl. empty-sequence Fatalf), fastseq_write_fastq.go '
+             '(_formatFastq/FormatFastqBatch), fastaseq_read.go (FastaChunkParser), fastqseq_read.go (FastqChunkParser, _storeSequenceQuality); pkg/obiseq '
+             'biosequence.go (QualitiesString, Qualities); pkg/obiutils goutils.go JsonMarshalByteBuffer = goccy/go-json encoder (appendNormalizedString, '
+             'AppendInt, AppendFloat64 format choice, Mapslice key order) and json.Unmarshal into map[string]interface{} on compact RFC 8259 texts',
+ 'assumptions': ['strconv: ParseFloat(FormatFloat(x, shortest)) = x and the shortest digits themselves (data; checked on every generated float through the digest)',
+                 'the model of go-json agrees with go-json (checked on every generated map: header bytes and decoded value)',
+                 'identifiers contain no blank; sequences are non-empty and over the parser alphabet; input and output quality shifts agree for quality round trips',
+                 'annotation maps: number literals grammatical, key `definition` holds the definition string (AnnOK, checked on every case)']}
